@@ -20,6 +20,9 @@ pub struct SimDb {
     panic_at: Cell<Option<u64>>,
     budget: Cell<u64>,
     superset: Cell<bool>,
+    seam_checked: Cell<u64>,
+    seam_bad: Cell<u64>,
+    seam_on: Cell<bool>,
 }
 
 impl SimDb {
@@ -74,7 +77,27 @@ impl RustIrDatabase<ChalkIr> for SimDb {
             let mut v: Vec<ImplId<ChalkIr>> = self.p.impl_data.iter().filter(|(_, d)| d.trait_id() == t).map(|(&i, _)| i).collect();
             v.reverse();
             v
-        } else { self.p.impls_for_trait(t, p, b) }
+        } else {
+            let filtered = self.p.impls_for_trait(t, p, b);
+            if self.seam_on.get() {
+                use chalk_solve::infer::InferenceTable;
+                let all: Vec<ImplId<ChalkIr>> = self.p.impl_data.iter().filter(|(_, d)| d.trait_id() == t).map(|(&i, _)| i).collect();
+                for id in all {
+                    if filtered.contains(&id) { continue; }
+                    let max_u = b.iter(ChalkIr).map(|k| k.skip_kind().counter).max().unwrap_or(0);
+                    let params = Substitution::from_iter(ChalkIr, p.iter().cloned());
+                    // placeholders may live in higher universes than any binder: be generous
+                    let (mut table, _, params) = InferenceTable::from_canonical(ChalkIr, max_u + 8, Canonical { binders: b.clone(), value: params });
+                    let datum = self.p.impl_data[&id].clone();
+                    let bound = table.instantiate_binders_existentially(ChalkIr, datum.binders.clone());
+                    let env = Environment::new(ChalkIr);
+                    let ok = table.relate(ChalkIr, &*self.p, &env, Variance::Invariant, params.as_slice(ChalkIr), bound.trait_ref.substitution.as_slice(ChalkIr)).is_ok();
+                    self.seam_checked.set(self.seam_checked.get() + 1);
+                    if ok { self.seam_bad.set(self.seam_bad.get() + 1); eprintln!("C18-SEAM filtered-out impl {:?} unifies with {:?}", bound.trait_ref, params); }
+                }
+            }
+            filtered
+        }
     }
     deleg!(local_impls_to_coherence_check(t: TraitId<ChalkIr>) -> Vec<ImplId<ChalkIr>>);
     deleg!(impl_provided_for(t: TraitId<ChalkIr>, ty: &TyKind<ChalkIr>) -> bool);
@@ -128,7 +151,7 @@ fn goal(p: &Arc<Program>, text: &str) -> UCanonical<InEnvironment<Goal<ChalkIr>>
 }
 
 fn simdb(p: &Arc<Program>) -> SimDb {
-    SimDb { p: p.clone(), calls: Cell::new(0), panic_at: Cell::new(None), budget: Cell::new(u64::MAX), superset: Cell::new(false) }
+    SimDb { p: p.clone(), calls: Cell::new(0), panic_at: Cell::new(None), budget: Cell::new(u64::MAX), superset: Cell::new(false), seam_checked: Cell::new(0), seam_bad: Cell::new(0), seam_on: Cell::new(false) }
 }
 
 fn exp_interrupt(choice: SolverChoice, ptext: &str, gtext: &str) {
@@ -497,6 +520,7 @@ fn load() -> Vec<(String, String, Vec<String>)> {
 fn sup() {
     let configs = [("slg", SolverChoice::slg_default()), ("rec", SolverChoice::recursive_default())];
     let (mut total, mut diff) = (0, 0);
+    let (mut sc, mut sb) = (0u64, 0u64);
     for (idx, (file, ptext, goals)) in load().iter().enumerate() {
         if idx == 161 || file == "negation.rs" { continue; }
         let p = match try_program(ptext) { Some(p) => p, None => continue };
@@ -505,7 +529,10 @@ fn sup() {
             chalk_integration::tls::set_current_program(&p, || {
                 for (cname, c) in &configs {
                     let db = simdb(&p);
+                    db.seam_on.set(true);
                     let r0 = run_solve(&mut c.into_solver(), &db, &g);
+                    db.seam_on.set(false);
+                    sc += db.seam_checked.get(); sb += db.seam_bad.get();
                     db.superset.set(true);
                     let r1 = run_solve(&mut c.into_solver(), &db, &g);
                     total += 1;
@@ -514,7 +541,7 @@ fn sup() {
             });
         }
     }
-    println!("superset comparisons={} diffs={}", total, diff);
+    println!("superset comparisons={} diffs={} | seam: filtered-out impls checked with the real unifier={} unifiable={}", total, diff, sc, sb);
 }
 
 fn logrep() {
